@@ -1,11 +1,10 @@
+\* example configuration (checks/c14.py writes its own per universe)
 SPECIFICATION Spec
 CONSTANTS
-  Structs <- cStructs
-  Root = "R"
-  Alphabet <- aFull
-  MaxLen = 1
-  Walks <- cWalks
-  Pims <- cPimsR
-  StrOrder <- cStrOrder
+  RootName = "R"
+  AlphabetName = "aFull"
+  PimsName = "cPimsR"
+  MaxLen = 2
+  Fixes = {}
 INVARIANTS TypeOK Emit
 CHECK_DEADLOCK FALSE
